@@ -2,6 +2,7 @@ package props
 
 import (
 	"fmt"
+	"go/token"
 	"go/types"
 	"strings"
 
@@ -88,8 +89,61 @@ func (c *Ctx) sinsertContract() {
 		}
 		return nil
 	}
+	storesLists := func(f *ssa.Function) bool {
+		for _, b := range f.Blocks {
+			for _, in := range b.Instrs {
+				if st, ok := in.(*ssa.Store); ok {
+					if p := ir.PathOf(st.Addr); len(p.Fields) >= 1 && (p.Fields[0] == "subs" || p.Fields[0] == "qos") {
+						return true
+					}
+				}
+			}
+		}
+		return false
+	}
+	// an index-search helper: loops over sn.subs with equal(), returns the index on a hit and -1 behind the loop
+	isIndexSearch := func(h *ssa.Function) bool {
+		if h == nil || h.Blocks == nil || recvNamed(h) != "snode" || h.Signature.Results().Len() != 1 {
+			return false
+		}
+		l := searchLoop(h)
+		if l == nil || storesLists(h) {
+			return false
+		}
+		hit, miss := false, false
+		for _, ret := range ir.Returns(h) {
+			op := ir.ReturnOperand(ret, 0)
+			if k, ok := op.(*ssa.Const); ok && k.Value != nil && k.Value.ExactString() == "-1" && !l.Blocks[ret.Block()] {
+				miss = true
+				continue
+			}
+			v := ir.SeeThrough(op)
+			if cv, ok := v.(*ssa.Convert); ok {
+				v = ir.SeeThrough(cv.X)
+			}
+			if sameIndexAsElement(v, l) {
+				hit = true
+			} else {
+				return false
+			}
+		}
+		return hit && miss
+	}
 	// the node-level block may have been moved into a method of the node (upsertSub): the contract is then its
-	fn = leafHost(fn, func(f *ssa.Function) bool { return searchLoop(f) != nil })
+	fn = leafHost(fn, func(f *ssa.Function) bool {
+		if !storesLists(f) {
+			return false
+		}
+		if searchLoop(f) != nil {
+			return true
+		}
+		for _, call := range ir.Calls(f) {
+			if isIndexSearch(call.Common().StaticCallee()) {
+				return true
+			}
+		}
+		return false
+	})
 	pos := c.P.Pos(fn.Pos())
 	loop := searchLoop(fn)
 	var qosParam ssa.Value
@@ -98,7 +152,15 @@ func (c *Ctx) sinsertContract() {
 			qosParam = p
 		}
 	}
+	var search *ssa.Call // the call of the index-search helper, when the loop is not in place
 	if loop == nil {
+		for _, call := range ir.Calls(fn) {
+			if cl, ok := call.(*ssa.Call); ok && isIndexSearch(cl.Common().StaticCallee()) {
+				search = cl
+			}
+		}
+	}
+	if loop == nil && search == nil {
 		c.R.Bad(ruleP4, "sinsert:replace-not-append", pos, "sinsert does not search the node's subscribers for the one being inserted: subscribing twice adds a second entry (duplicate deliveries)")
 		return
 	}
@@ -122,47 +184,77 @@ func (c *Ctx) sinsertContract() {
 		}
 	}
 	appSubs, appQos := isAppend("subs"), isAppend("qos")
-	// on the "found" branch (equal() true) no append is reachable and the function returns without
+	// on the "found" branch (equal() true / index >= 0) no append is reachable and the function returns without
 	// looking at further entries
 	var found []paths.Node
-	for b := range loop.Blocks {
-		iff, ok := b.Instrs[len(b.Instrs)-1].(*ssa.If)
-		if !ok {
-			continue
-		}
-		if a, t := edgeAtom(iff, 0); a == "call:topics.equal" {
-			idx := 0
-			if !t {
-				idx = 1
+	if loop != nil {
+		for b := range loop.Blocks {
+			iff, ok := b.Instrs[len(b.Instrs)-1].(*ssa.If)
+			if !ok {
+				continue
 			}
-			found = append(found, paths.Node{F: g.Root, Instr: b.Succs[idx].Instrs[0], Phase: -1})
+			if a, t := edgeAtom(iff, 0); a == "call:topics.equal" {
+				idx := 0
+				if !t {
+					idx = 1
+				}
+				found = append(found, paths.Node{F: g.Root, Instr: b.Succs[idx].Instrs[0], Phase: -1})
+			}
+		}
+	} else {
+		// the test of the helper's result: >= 0, > -1, != -1 (found on the true edge), < 0, == -1 (on the false edge)
+		for _, b := range fn.Blocks {
+			iff, ok := b.Instrs[len(b.Instrs)-1].(*ssa.If)
+			if !ok {
+				continue
+			}
+			bo, ok := iff.Cond.(*ssa.BinOp)
+			if !ok || ir.SeeThrough(bo.X) != ssa.Value(search) {
+				continue
+			}
+			k, ok := bo.Y.(*ssa.Const)
+			if !ok || k.Value == nil {
+				continue
+			}
+			kv := k.Value.ExactString()
+			edge := -1
+			switch {
+			case bo.Op == token.GEQ && kv == "0", bo.Op == token.GTR && kv == "-1", bo.Op == token.NEQ && kv == "-1":
+				edge = 0
+			case bo.Op == token.LSS && kv == "0", bo.Op == token.LEQ && kv == "-1", bo.Op == token.EQL && kv == "-1":
+				edge = 1
+			}
+			if edge >= 0 {
+				found = append(found, paths.Node{F: g.Root, Instr: b.Succs[edge].Instrs[0], Phase: -1})
+			}
 		}
 	}
 	// a "found" flag set on the hit branch and tested after the loop: the test's outcome is
 	// determined by the way the flag's phi was reached from the hit branch
 	g.PruneEdge = boolPhiPruner(found)
+	again := func(n paths.Node) bool {
+		if loop != nil {
+			return n.F == g.Root && n.Instr == loop.Header.Instrs[0]
+		}
+		return n.F == g.Root && n.Instr == ssa.Instruction(search)
+	}
 	if len(found) == 0 {
-		c.R.Bad(ruleP4, "sinsert:replace-not-append", pos, "the search loop does not branch on equal()")
+		c.R.Bad(ruleP4, "sinsert:replace-not-append", pos, "the search does not branch on equal() / on the index found")
 	} else if p := g.FindPath(found, nil, func(n paths.Node) bool {
-		return appSubs(n) || appQos(n) || (n.F == g.Root && n.Instr == loop.Header.Instrs[0])
+		return appSubs(n) || appQos(n) || again(n)
 	}); p != nil {
 		c.R.Bad(ruleP4, "sinsert:replace-not-append", pos, "after the subscriber was found on the node, an append (or another round of the search) is still reachable: subscribing again adds a second entry and the subscriber is delivered to twice", c.witness(g, p)...)
 	} else {
-		c.R.Ok(ruleP4, "sinsert:replace-not-append", pos, "once equal() found the subscriber the function returns without appending")
+		c.R.Ok(ruleP4, "sinsert:replace-not-append", pos, "once the subscriber was found the function returns without appending")
 	}
 	g.PruneEdge = nil
-	// the appends are reachable only through the loop's normal exit
-	if p := g.FindPath([]paths.Node{g.Entry()}, func(n paths.Node) bool { return n.F == g.Root && n.Instr == loop.Header.Instrs[0] }, func(n paths.Node) bool { return appSubs(n) }); p != nil {
+	// the appends are reachable only through the search
+	if p := g.FindPath([]paths.Node{g.Entry()}, again, func(n paths.Node) bool { return appSubs(n) }); p != nil {
 		c.R.Bad(ruleP4, "sinsert:append-only-after-search", pos, "a subscriber can be appended without the node's list having been searched for it", c.witness(g, p)...)
 	} else {
-		c.R.Ok(ruleP4, "sinsert:append-only-after-search", pos, "the append is only reachable through the search loop")
+		c.R.Ok(ruleP4, "sinsert:append-only-after-search", pos, "the append is only reachable through the search")
 	}
 	okStore := false
-	for b := range loop.Blocks {
-		for _, s := range b.Succs {
-			_ = s
-		}
-	}
 	for _, bb := range fn.Blocks {
 		for _, in := range bb.Instrs {
 			st, ok := in.(*ssa.Store)
@@ -174,8 +266,20 @@ func (c *Ctx) sinsertContract() {
 				continue
 			}
 			p := ir.PathOf(ia.X)
-			if len(p.Fields) == 1 && p.Fields[0] == "qos" && qosParam != nil && ir.SeeThrough(st.Val) == qosParam && sameIndexAsElement(ia.Index, loop) {
+			if len(p.Fields) != 1 || p.Fields[0] != "qos" || qosParam == nil || ir.SeeThrough(st.Val) != qosParam {
+				continue
+			}
+			if loop != nil && sameIndexAsElement(ia.Index, loop) {
 				okStore = true
+			}
+			if search != nil {
+				iv := ir.SeeThrough(ia.Index)
+				if cv, ok := iv.(*ssa.Convert); ok {
+					iv = ir.SeeThrough(cv.X)
+				}
+				if iv == ssa.Value(search) {
+					okStore = true
+				}
 			}
 		}
 	}
@@ -374,13 +478,16 @@ func (c *Ctx) trieTraversals() {
 				splits = append(splits, call)
 			}
 		}
-		okSplit := len(splits) == 1 && ir.SeeThrough(splits[0].Common().Args[0]) == ssa.Value(fn.Params[1])
-		// recursion continues with the remainder returned by the splitter
-		okRem := false
-		for _, call := range ir.Calls(fn) {
-			if call.Common().StaticCallee() == fn && len(splits) == 1 {
-				if ex, ok := ir.SeeThrough(call.Common().Args[1]).(*ssa.Extract); ok && ex.Tuple == splits[0].(ssa.Value) && ex.Index == 1 {
-					okRem = true
+		okSplit, okRem := false, false
+		if len(splits) == 1 {
+			ta, rr, _ := c.splitterShape(splits[0].Common().StaticCallee())
+			okSplit = ta < len(splits[0].Common().Args) && ir.SeeThrough(splits[0].Common().Args[ta]) == ssa.Value(fn.Params[1])
+			// recursion continues with the remainder returned by the splitter
+			for _, call := range ir.Calls(fn) {
+				if call.Common().StaticCallee() == fn {
+					if ex, ok := ir.SeeThrough(call.Common().Args[1]).(*ssa.Extract); ok && ex.Tuple == splits[0].(ssa.Value) && ex.Index == rr {
+						okRem = true
+					}
 				}
 			}
 		}
@@ -622,38 +729,56 @@ func (c *Ctx) endOfLevelsSignal() {
 // isLevelSplitter: f is nextTopicLevel or a wrapper (level, rem, err) := wrap(topic) that calls the splitter
 // on its own parameter and returns the splitter's remainder as its second result.
 func (c *Ctx) isLevelSplitter(f *ssa.Function) bool {
+	_, _, ok := c.splitterShape(f)
+	return ok
+}
+
+// levelSplitter: f is the level splitter, or a wrapper that applies it to one of its own parameters and hands its
+// remainder through on every successful return; returns the index of the topic argument and of the remainder result.
+func (c *Ctx) splitterShape(f *ssa.Function) (topicArg, remRes int, ok bool) {
 	if f == nil || f.Pkg == nil || f.Pkg.Pkg.Path() != pkgTopics {
-		return false
+		return 0, 0, false
 	}
 	if f.Name() == "nextTopicLevel" && f.Signature.Recv() == nil {
-		return true
+		return 0, 1, true
 	}
-	if len(f.Params) != 1 || f.Signature.Results().Len() != 3 {
-		return false
+	nres := f.Signature.Results().Len()
+	if nres < 3 {
+		return 0, 0, false
 	}
 	var inner *ssa.Call
+	topicArg = -1
 	for _, call := range ir.Calls(f) {
 		if ir.IsFunc(call.Common(), pkgTopics, "nextTopicLevel") {
-			if cl, ok := call.(*ssa.Call); ok && ir.SeeThrough(cl.Common().Args[0]) == ssa.Value(f.Params[0]) {
-				inner = cl
+			if cl, isCall := call.(*ssa.Call); isCall {
+				for i, prm := range f.Params {
+					if ir.SeeThrough(cl.Common().Args[0]) == ssa.Value(prm) {
+						inner, topicArg = cl, i
+					}
+				}
 			}
 		}
 	}
 	if inner == nil {
-		return false
+		return 0, 0, false
 	}
-	ok := false
+	remRes = -1
 	for _, ret := range ir.Returns(f) {
-		if k, isK := ir.ReturnOperand(ret, 2).(*ssa.Const); !isK || !k.IsNil() {
+		if k, isK := ir.ReturnOperand(ret, nres-1).(*ssa.Const); !isK || !k.IsNil() {
 			continue
 		}
-		ex, isEx := ir.SeeThrough(ir.ReturnOperand(ret, 1)).(*ssa.Extract)
-		if !isEx || ex.Tuple != ssa.Value(inner) || ex.Index != 1 {
-			return false
+		found := -1
+		for r := 0; r < nres-1; r++ {
+			if ex, isEx := ir.SeeThrough(ir.ReturnOperand(ret, r)).(*ssa.Extract); isEx && ex.Tuple == ssa.Value(inner) && ex.Index == 1 {
+				found = r
+			}
 		}
-		ok = true
+		if found < 0 || remRes >= 0 && remRes != found {
+			return 0, 0, false
+		}
+		remRes = found
 	}
-	return ok
+	return topicArg, remRes, remRes >= 0
 }
 
 // leafHost: fn itself when it has the wanted shape, else the one method of the same receiver type it calls (not
